@@ -22,7 +22,7 @@ SPEC = os.path.join(V.SPEC, "Scopes")
 def rename_cases(mos, p, picks, wd):
     """picks: list of (oid, new).  One server per project; every case starts from a re-analysed buffer."""
     root = p["dir"]
-    srv = L.Server(mos, root)
+    srv = L.Server(mos, root, timeout=10.0)
     srv.initialize()
     D.open_all(srv, p)
     out = []
@@ -42,11 +42,15 @@ def rename_cases(mos, p, picks, wd):
         r = srv.request(*L.params_for("prepareRename", path, ln, ch))
         if r["status"] != "ok":
             rec["status"], rec["panic"] = r["status"], r["panic"]
+            if r["status"] == "timeout":
+                srv.kill()                    # a hung server is of no use for the remaining cases (they are recorded as dead)
             continue
         rec["offered"] = r["result"] is not None
         r = srv.request(*L.params_for("rename", path, ln, ch, new_name=new))
         if r["status"] != "ok":
             rec["status"], rec["panic"] = r["status"], r["panic"]
+            if r["status"] == "timeout":
+                srv.kill()                    # a hung server is of no use for the remaining cases (they are recorded as dead)
             continue
         changes = (r["result"] or {}).get("changes") or {}
         rec["edits"] = [{"oid": o_, "text": e["newText"]} for u, eds in changes.items() for e in eds for o_ in D.oids_at(p["occ"], root, u, L.rng4(e["range"]))]
@@ -78,6 +82,8 @@ def rename_cases(mos, p, picks, wd):
             rec["backText"] = [{"f": f, "s": t} for f, t in sorted(back.items())]
         elif r["status"] != "ok":
             rec["status"], rec["panic"] = r["status"], r["panic"]
+            if r["status"] == "timeout":
+                srv.kill()                    # a hung server is of no use for the remaining cases (they are recorded as dead)
     srv.kill()
     return out
 
